@@ -751,6 +751,18 @@ def run(ctx):
         "objects (None, int, str, set, tuple, ndarray; the reflected comparison is not asked of the ndarray)",
         "trusted: TLC, the TLA+ value parser, the projection (get_atom_count/as_array), numpy",
     ]
+    # ---- S1 of the single-call model (BondCalls) runs beside the machine's S1 ------------
+    import threading
+
+    box = {}
+
+    def _calls():
+        try:
+            box["prep"] = prepare_calls(ctx)
+        except BaseException as e:  # noqa: BLE001 - re-raised in the main thread
+            box["err"] = e
+    th = threading.Thread(target=_calls, daemon=True)
+    th.start()
     # ---- S1 + state graph ------------------------------------------------------------
     d = tlc.scratch_dir("c02")
     dotf = os.path.join(d, "g.dot")
@@ -807,7 +819,10 @@ def run(ctx):
     ctx.log(f"S2: {len(items)} paths covering {covered}/{len(g.edges)} transitions")
     # S2b (every single call in every form, every comparison) shares the worker pool of S2: its
     # items are spread evenly between the paths
-    prep = prepare_calls(ctx)
+    th.join()
+    if "err" in box:
+        raise box["err"]
+    prep = box["prep"]
     citems = prep["items"]
     every = max(1, len(items) // max(1, len(citems)))
     merged, where = [], []
